@@ -244,6 +244,7 @@ type world struct {
 	base           [4]int64
 	herr           string
 	lease          []finding // lease-time violations of the last event
+	attempts       int       // connections the pool created during the last event
 }
 
 const waitTimeout = 20 * time.Second
@@ -532,6 +533,8 @@ func (w *world) apply(ev string) (outcome string) {
 // step applies one event and waits for the pool's own goroutines.
 func (w *world) step(ev string) string {
 	var out string
+	before := len(vfake.Created)
+	defer func() { w.attempts = len(vfake.Created) - before }()
 	if w.d.Guarded() {
 		if dl := w.guarded(func() { out = w.apply(ev) }); dl != "" {
 			// the goroutine applying the event is stuck for ever inside the code under test (and is
@@ -797,10 +800,14 @@ func (w *world) cleanup() {
 	if !w.d.Async() {
 		return // no per-connection goroutines to release
 	}
-	for _, fc := range vfake.Created {
-		if !fc.IsClosed() {
-			fc.Close(api.NoFlush, api.LocalClose)
+	w.syncConns()
+	for _, c := range w.conns {
+		if !c.fc.IsClosed() {
+			c.fc.Close(api.NoFlush, api.LocalClose)
 		}
+		// the streams in flight are reset by the connection's reader goroutine: wait for it, or its
+		// bookkeeping (stats are process-global) would leak into the next replay's baseline
+		w.endStreamsOn(c, "cleanup")
 	}
 }
 
@@ -1018,12 +1025,20 @@ type result struct {
 	dirty    bool // the final state has standing invariant violations
 }
 
-func eventClass(ev, outcome string) string {
+// eventClass names the class of an event for finding keys and outcome statistics. The connect
+// outcome scripted with a NewStream is part of the class only if the pool attempted a connection.
+func eventClass(ev, outcome string, attempts int) string {
 	name := ev
 	if i := strings.IndexByte(ev, ':'); i >= 0 {
 		name = ev[:i]
 	}
 	if strings.HasPrefix(name, "new") {
+		if attempts == 0 {
+			name = "new"
+		}
+		if outcome == "" {
+			return name
+		}
 		return name + "->" + outcome
 	}
 	return name
@@ -1059,9 +1074,9 @@ func runHistory(d Driver, cfg Cfg, hist []string, probe int) (res result) {
 				res.harness = fmt.Sprintf("history %v continues after event %d (%s) self-deadlocked", hist, i, ev)
 				return
 			}
-			cls := eventClass(ev, "self-deadlock")
+			cls := eventClass(ev, "self-deadlock", w.attempts)
 			res.outcome = cls
-			res.findings = append(res.findings, finding{"pool=" + d.Name() + " " + w.deadlock + " [at " + eventClass(ev, "") + "]",
+			res.findings = append(res.findings, finding{"pool=" + d.Name() + " " + w.deadlock + " [at " + eventClass(ev, "", w.attempts) + "]",
 				fmt.Sprintf("the goroutine applying event %q blocked for ever inside the pool/stream code: %s", ev, w.deadlockDetail)})
 			res.canon = fmt.Sprintf("SELF-DEADLOCK|%s|%d", w.deadlock, len(hist)) // terminal, never merged with a live state
 			res.poisoned, res.dirty = true, true
@@ -1072,7 +1087,7 @@ func runHistory(d Driver, cfg Cfg, hist []string, probe int) (res result) {
 	post := w.check()
 	cls := "initial state"
 	if len(hist) > 0 {
-		cls = eventClass(hist[len(hist)-1], res.outcome)
+		cls = eventClass(hist[len(hist)-1], res.outcome, w.attempts)
 		res.outcome = cls
 	}
 	for _, f := range w.lease {
